@@ -397,7 +397,7 @@ Section Seq.
         rev racc' = rev racc ++ filter (freef pl) S /\ f' = fcnt + List.length (filter (freef pl) S) /\
         rc' = rcnt + (q - j + 1) * RB /\ oob g' = oob g /\ rframe g g' r chain.
   Proof.
-    intros Hq Hlc HL0. induction fuel as [|fuel IH]; intros g w j racc fcnt rcnt I Hjq Hw Hf Hsk; [lia|].
+    intros Hq Hlc HL0. unfold keepf, freef. induction fuel as [|fuel IH]; intros g w j racc fcnt rcnt I Hjq Hw Hf Hsk; [lia|].
     assert (Hqlt : q < List.length chain) by (apply nth_error_Some; congruence).
     destruct (nth_error chain j) as [b|] eqn:Hb; [|apply nth_error_None in Hb; lia].
     cbn [stage2_blocks].
@@ -469,7 +469,6 @@ Section Seq.
     { unfold g0. constructor; auto.
       - rewrite grec_upd_rec_same by exact Ir. cbn. eapply is_chain_ext; [| |exact Ich]; auto.
       - rewrite grec_upd_rec_same by exact Ir. cbn. exact Itl.
-      - lia.
       - exists 0, 0. rewrite grec_upd_rec_same by exact Ir. cbn. repeat split; auto; try lia.
         destruct chain; [congruence|cbn; lia]. }
     assert (Hfl0 : flat g0 chain = flat g chain) by (apply flat_ext; intros; apply grb_upd_rec).
